@@ -270,6 +270,14 @@ def run_history(hist, seed_parts, rec, engine, files=False, choices=None):
     clock = 0
     traces, scheds = [], []
     interesting = False
+    # half of the in-memory controlled histories keep the task objects and
+    # the backend object from run to run (a long-lived process), the others
+    # create them anew for every run (the command line)
+    reuse = engine == 'controlled' and not files and \
+        core.rng_for(*seed_parts, 'reuse').random() < 0.5
+    if reuse:
+        rec.count('histories_reusing_tasks_and_backend')
+    tasks_graphs, backend = None, None
     try:
         for run_no in range(len(hist['runs'])):
             case = case_for_run(hist, run_no)
@@ -279,7 +287,17 @@ def run_history(hist, seed_parts, rec, engine, files=False, choices=None):
             else:
                 env = carry_memory(env, lose)
             before = snapshot_env(env, case['tasks'])
-            tasks_graphs = H.build(case, mon, outroot=root or '/nonexistent')
+            if reuse and tasks_graphs is not None:
+                # the task objects and the backend of the earlier runs serve
+                # again; tasks that are new in this run are created
+                tasks = tasks_graphs[0]
+                fresh = H.build(case, mon, outroot=root or '/nonexistent')[0]
+                for name in case['tasks']:
+                    tasks.setdefault(name, fresh[name])
+                tasks_graphs = (tasks,) + H.rewire(case, tasks)
+            else:
+                tasks_graphs = H.build(case, mon,
+                                       outroot=root or '/nonexistent')
             rng = core.rng_for(*seed_parts, 'run', run_no)
             if engine == 'controlled':
                 if choices is not None:
@@ -291,7 +309,9 @@ def run_history(hist, seed_parts, rec, engine, files=False, choices=None):
                                   15 * len(case['tasks']) + 10)
                 res = H.run_controlled(case, strat, mon=mon, env=env,
                                        tasks_graphs=tasks_graphs,
-                                       clock0=clock)
+                                       clock0=clock,
+                                       backend=backend if reuse else None)
+                backend = res.backend
                 clock = res.clock
             else:
                 res = H.run_stress(case, rng, mon=mon, env=env,
